@@ -352,7 +352,8 @@ class Counter:
     Assign/AugAssign statements; `stop` = qualified names of functions that are not followed (their calls become the
     event `call:<qual>`, as do recursive calls)."""
 
-    def __init__(self, ctx, stop=(), classify=None, track_tables=True):
+    def __init__(self, ctx, stop=(), classify=None, track_tables=True, free=()):
+        self.free = set(free)       # names a nested function reads from the enclosing scope (treated like parameters)
         self.ctx = ctx
         self.prog = ctx.prog
         self.stop = set(stop)
@@ -623,7 +624,7 @@ class Counter:
         if isinstance(e, ast.Name):
             defs = st.flow.reaching(e.id, at)
             if not defs:
-                return 'expr:' + e.id
+                return e.id if e.id in self.free else 'expr:' + e.id
             if all(d.kind == 'param' for d in defs):
                 return e.id
             if len(defs) == 1 and defs[0].kind == 'assign' and defs[0].value is not None:
